@@ -16,6 +16,7 @@
 package main
 
 import (
+	"bufio"
 	"bytes"
 	"encoding/hex"
 	"flag"
@@ -44,6 +45,23 @@ type Frame struct {
 	Len   int    `json:"len"`
 	Code  int    `json:"code,omitempty"`  // close code
 	Parts []int  `json:"parts,omitempty"` // frag: sizes of the flushes of one message
+}
+
+// ReadFCase: sideConn.Read across message boundaries - messages that arrive
+// as several fragments, messages and fragments of zero length, and a
+// connection that is lost in the middle of a message ("cut": the writer has
+// flushed some fragments of the message, then the TCP connection goes away).
+type ReadFCase struct {
+	Script    []Frame  `json:"script"` // bin | frag | cut | text | close | lost
+	Bufs      []int    `json:"bufs"`
+	Chunks    []int    `json:"chunks"`
+	Total     int      `json:"total"`
+	Complete  int      `json:"complete"`  // bytes of the messages that were sent completely before the end
+	PrefixOK  bool     `json:"prefix_ok"` // what was read is a prefix of the bytes of the script's messages
+	Ended     string   `json:"ended"`     // eof | error | timeout
+	Later     []string `json:"later"`
+	TooLong   bool     `json:"too_long"`
+	SetupErr  string   `json:"setup_err,omitempty"`
 }
 
 type WriteCase struct {
@@ -126,11 +144,63 @@ type E2ECase struct {
 	Skipped  bool   `json:"skipped,omitempty"` // not run: this mode already hit three observation bounds
 }
 
+// StageCase: TLSHelloConn alone on a scripted connection - a hello with
+// bytes behind it, delivered in the given segments; HelloInfo, then for every
+// run a fresh connection read to the end with one caller buffer size.
+type StageRun struct {
+	M         int    `json:"m"`      // len(buf) of every Read
+	Chunks    []int  `json:"chunks"` // what each Read returned (the last one together with the end)
+	Ended     string `json:"ended"`  // eof | error:<text> | limit
+	Total     int    `json:"total"`
+	OK        bool   `json:"ok"`         // everything read == everything sent
+	FirstDiff int    `json:"first_diff"` // -1 when what was read is a prefix of what was sent
+}
+
+type StageCase struct {
+	Hello    string     `json:"hello"` // hex: the ClientHello record
+	HelloLen int        `json:"hello_len"`
+	Trail    int        `json:"trail"` // bytes behind the hello
+	Sched    []int      `json:"sched"` // segment sizes (then everything that is left)
+	SegDesc  string     `json:"seg_desc"`
+	Name     string     `json:"name"` // what HelloInfo reported
+	Runs     []StageRun `json:"runs"`
+}
+
+// ConcCase: several connections through ONE endpoint at the same time, each
+// carrying payloads whose every 8-byte word names the direction, the
+// connection and the offset.
+type ConcDir struct {
+	Sent      int    `json:"sent"`
+	Received  int    `json:"received"`
+	PrefixOK  bool   `json:"prefix_ok"`
+	Complete  bool   `json:"complete"`
+	FirstDiff int    `json:"first_diff"`       // byte offset of the first wrong word, -1
+	Foreign   string `json:"foreign,omitempty"` // what that word says when it names another connection / direction
+	Err       string `json:"err,omitempty"`
+}
+
+type ConcConn struct {
+	ID  int     `json:"id"`
+	C2A ConcDir `json:"c2a"`
+	A2C ConcDir `json:"a2c"`
+}
+
+type ConcCase struct {
+	Mode     string     `json:"mode"`
+	Conns    []ConcConn `json:"conns"`
+	C2ABytes int        `json:"c2a_bytes"`
+	A2CBytes int        `json:"a2c_bytes"`
+	SetupErr string     `json:"setup_err,omitempty"`
+}
+
 type Case struct {
 	I      int        `json:"i"`
 	Stream string     `json:"stream"`
+	Conc   *ConcCase  `json:"conc,omitempty"`
+	Stage  *StageCase `json:"stage,omitempty"`
 	Write  *WriteCase `json:"write,omitempty"`
 	Read   *ReadCase  `json:"read,omitempty"`
+	ReadF  *ReadFCase `json:"readf,omitempty"`
 	Reply  *ReplyCase `json:"reply,omitempty"`
 	Pipe   *PipeCase  `json:"pipe,omitempty"`
 	WFail  *WriteFailCase `json:"wfail,omitempty"`
@@ -161,8 +231,12 @@ type wsPair struct {
 	ts     *httptest.Server
 }
 
-func newWSPair() (*wsPair, error) {
-	up := &websocket.Upgrader{ReadBufferSize: sniproxy.DefaultReadBufferSize, WriteBufferSize: sniproxy.DefaultWriteBufferSize}
+func newWSPair() (*wsPair, error) { return newWSPairBuf(sniproxy.DefaultWriteBufferSize) }
+
+// newWSPairBuf: the accepted side writes with a buffer of the given size (a
+// small one makes a message leave as several fragments).
+func newWSPairBuf(serverWriteBuf int) (*wsPair, error) {
+	up := &websocket.Upgrader{ReadBufferSize: sniproxy.DefaultReadBufferSize, WriteBufferSize: serverWriteBuf}
 	ch := make(chan *websocket.Conn, 1)
 	ts := httptest.NewServer(http.HandlerFunc(func(w http.ResponseWriter, r *http.Request) {
 		c, err := up.Upgrade(w, r, nil)
@@ -522,6 +596,156 @@ func runRead(r *hx.Rng, script []Frame) *ReadCase {
 	return c
 }
 
+// ---- readf stream: fragments, zero lengths, a cut in the middle of a message ----
+
+func genScriptF(r *hx.Rng, kind int) []Frame {
+	var s []Frame
+	msg := func() Frame {
+		switch r.Intn(8) {
+		case 0:
+			return Frame{T: "bin", Len: 0}
+		case 1: // an empty message written through a writer (a single empty final frame)
+			return Frame{T: "frag", Parts: []int{}}
+		case 2, 3: // several flushes, some of them empty
+			f := Frame{T: "frag"}
+			for j, k := 0, 2+r.Intn(4); j < k; j++ {
+				part := []int{0, 1, 100, 255, 256, 257, 600, 5000}[r.Intn(8)]
+				f.Parts = append(f.Parts, part)
+				f.Len += part
+			}
+			return f
+		default:
+			return Frame{T: "bin", Len: []int{1, 2, 255, 256, 257, 4096, 4097, 20000}[r.Intn(8)]}
+		}
+	}
+	for i, n := 0, r.Intn(5); i < n; i++ {
+		s = append(s, msg())
+	}
+	switch kind {
+	case 0: // the connection is lost in the middle of a message
+		s = append(s, Frame{T: "cut", Len: []int{1, 256, 257, 513, 541, 600, 1000, 5000, 70000}[r.Intn(9)]})
+	case 1:
+		s = append(s, Frame{T: "text", Len: 3}, Frame{T: "lost"})
+	case 2:
+		s = append(s, Frame{T: "lost"})
+	default:
+		s = append(s, Frame{T: "close", Code: []int{websocket.CloseNormalClosure, websocket.CloseGoingAway}[r.Intn(2)]})
+	}
+	return s
+}
+
+func runReadF(r *hx.Rng, kind int) *ReadFCase {
+	c := &ReadFCase{Script: genScriptF(r, kind), Chunks: []int{}, Later: []string{}}
+	for i, n := 0, 1+r.Intn(4); i < n; i++ {
+		c.Bufs = append(c.Bufs, []int{1, 7, 255, 256, 257, 4096, 32768}[r.Intn(7)])
+	}
+	p, err := newWSPairBuf(256)
+	if err != nil {
+		c.SetupErr = err.Error()
+		return c
+	}
+	defer p.close()
+	sc := sniproxy.VerifNewSideConn(p.client, "")
+	seed := r.U64()
+	var all []byte // the bytes of every binary message of the script, the cut one in full
+	total := 0
+	for i, f := range c.Script {
+		if f.T == "text" || f.T == "close" || f.T == "lost" {
+			break
+		}
+		all = append(all, pattern(seed+uint64(i), f.Len)...)
+		if f.T != "cut" {
+			c.Complete += f.Len
+		}
+		total += f.Len
+	}
+	go func() {
+		p.server.SetWriteDeadline(time.Now().Add(bound))
+		for i, f := range c.Script {
+			data := pattern(seed+uint64(i), f.Len)
+			switch f.T {
+			case "bin":
+				p.server.WriteMessage(websocket.BinaryMessage, data)
+			case "frag", "cut":
+				w, err := p.server.NextWriter(websocket.BinaryMessage)
+				if err != nil {
+					return
+				}
+				if f.T == "cut" {
+					w.Write(data) // what fills the writer's buffer leaves as fragments; the message is never finished
+					p.server.UnderlyingConn().Close()
+					return
+				}
+				off := 0
+				for _, part := range f.Parts {
+					w.Write(data[off : off+part])
+					off += part
+				}
+				w.Close()
+			case "text":
+				p.server.WriteMessage(websocket.TextMessage, []byte("EOF"))
+			case "close":
+				p.server.WriteControl(websocket.CloseMessage, websocket.FormatCloseMessage(f.Code, ""), time.Now().Add(bound))
+			case "lost":
+				p.server.UnderlyingConn().Close()
+				return
+			}
+		}
+	}()
+	sc.SetDeadline(time.Now().Add(bound))
+	for i := range c.Bufs {
+		for total/c.Bufs[i] > 300 {
+			c.Bufs[i] *= 16
+		}
+	}
+	var got []byte
+	zero := 0
+	for i := 0; ; i++ {
+		buf := make([]byte, c.Bufs[i%len(c.Bufs)])
+		n, err := sc.Read(buf)
+		if n > len(buf) {
+			c.TooLong = true
+			n = len(buf)
+		}
+		c.Chunks = append(c.Chunks, n)
+		got = append(got, buf[:n]...)
+		if err != nil {
+			c.Ended = classify(err)
+			break
+		}
+		if n == 0 {
+			if zero++; zero > 1000 {
+				c.Ended = "spinning"
+				break
+			}
+		}
+	}
+	c.Total = len(got)
+	c.PrefixOK = len(got) <= len(all) && bytes.Equal(got, all[:len(got)])
+	if c.Ended == "eof" || c.Ended == "error" {
+		for i := 0; i < 2; i++ {
+			sc.SetReadDeadline(time.Now().Add(bound))
+			buf := make([]byte, 4096)
+			n, err := sc.Read(buf)
+			kind := classify(err)
+			if err == nil && n > 0 {
+				kind = "data"
+			}
+			if kind == "timeout" {
+				kind = "block"
+			}
+			c.Later = append(c.Later, kind)
+			if kind == "block" {
+				break
+			}
+		}
+	}
+	if len(c.Chunks) > 64 {
+		c.Chunks = c.Chunks[:64]
+	}
+	return c
+}
+
 // ---- reply stream ----
 
 func runReply(r *hx.Rng) *ReplyCase {
@@ -592,6 +816,291 @@ func runPipe(r *hx.Rng) *PipeCase {
 	b.Close()
 	c.ContentOK = bytes.Equal(got, sent)
 	return c
+}
+
+// ---- stage stream: TLSHelloConn alone ----
+
+type segConn struct {
+	data  []byte
+	pos   int
+	sched []int
+}
+
+func (c *segConn) Read(p []byte) (int, error) {
+	if c.pos >= len(c.data) {
+		return 0, io.EOF
+	}
+	if len(p) == 0 {
+		return 0, nil
+	}
+	k := len(c.data) - c.pos
+	if len(c.sched) > 0 {
+		if c.sched[0] < k {
+			k = c.sched[0]
+		}
+		if k < 1 {
+			k = 1
+		}
+		c.sched = c.sched[1:]
+	}
+	if k > len(p) {
+		k = len(p)
+	}
+	copy(p, c.data[c.pos:c.pos+k])
+	c.pos += k
+	return k, nil
+}
+func (c *segConn) Write(p []byte) (int, error)      { return len(p), nil }
+func (c *segConn) Close() error                     { return nil }
+func (c *segConn) LocalAddr() net.Addr              { return &net.TCPAddr{} }
+func (c *segConn) RemoteAddr() net.Addr             { return &net.TCPAddr{} }
+func (c *segConn) SetDeadline(time.Time) error      { return nil }
+func (c *segConn) SetReadDeadline(time.Time) error  { return nil }
+func (c *segConn) SetWriteDeadline(time.Time) error { return nil }
+
+// runStage: kind 0/1 = the minimal hello with 1 / 7 bytes behind it in one
+// segment and EVERY caller buffer size from 1 to a little more than the whole
+// stream (plus the copy-loop sizes); kind 2 = sampled larger hellos, trailers,
+// segmentations and sizes up to 32768.
+func runStage(r *hx.Rng, kind int) *StageCase {
+	payload := 0
+	trail := 1
+	var sizes []int
+	switch kind {
+	case 0, 1:
+		trail = []int{1, 7}[kind]
+	default:
+		payload = []int{0, 300, 1000, 4091, 8192, 16384 - 50, 16384}[r.Intn(7)]
+		trail = []int{1, 2, 100, 1000, 5000, 20000}[r.Intn(6)]
+	}
+	hello := e2e.SynthHello("stage.example", true, payload)
+	H := len(hello)
+	sent := append(append([]byte{}, hello...), pattern(r.U64(), trail)...)
+	c := &StageCase{Hello: hex.EncodeToString(hello), HelloLen: H, Trail: trail, Sched: []int{}, SegDesc: "one segment"}
+	if kind >= 2 {
+		switch r.Intn(5) {
+		case 0:
+			c.Sched, c.SegDesc = []int{H + 1}, "hello and one more byte, then the rest"
+		case 1:
+			c.Sched, c.SegDesc = []int{H}, "cut exactly behind the hello"
+		case 2:
+			k := 1 + r.Intn(H-1)
+			c.Sched, c.SegDesc = []int{k}, fmt.Sprintf("cut inside the hello at %d", k)
+		case 3:
+			c.Sched, c.SegDesc = []int{5}, "header alone, then the rest"
+		}
+		n := len(sent)
+		cand := []int{H - 1, H, H + 1, n - 1, n, n + 1, 512, 4096, 16388, 16389, 16390, 32767, 32768,
+			1 + r.Intn(32768), 1 + r.Intn(32768), 1 + r.Intn(n)}
+		if n <= 2000 {
+			cand = append(cand, 1, 2, 3)
+		}
+		for _, m := range cand {
+			if m >= 1 {
+				sizes = append(sizes, m)
+			}
+		}
+	} else {
+		for m := 1; m <= len(sent)+2; m++ {
+			sizes = append(sizes, m)
+		}
+		sizes = append(sizes, 4096, 16389, 32768)
+	}
+	for _, m := range sizes {
+		hc := sniproxy.NewTLSHelloConn(&segConn{data: sent, sched: append([]int{}, c.Sched...)})
+		info, err := hc.HelloInfo()
+		if err != nil {
+			c.Name = "error:" + err.Error()
+		} else {
+			c.Name = info.ServerName
+		}
+		run := StageRun{M: m, Chunks: []int{}, FirstDiff: -1}
+		var got []byte
+		for {
+			buf := make([]byte, m)
+			k, rerr := hc.Read(buf)
+			run.Chunks = append(run.Chunks, k)
+			got = append(got, buf[:k]...)
+			if rerr != nil {
+				run.Ended = "eof"
+				if rerr != io.EOF {
+					run.Ended = "error:" + rerr.Error()
+				}
+				break
+			}
+			if len(run.Chunks) > 200000 {
+				run.Ended = "limit"
+				break
+			}
+		}
+		run.Total = len(got)
+		run.OK = bytes.Equal(got, sent)
+		if !bytes.HasPrefix(sent, got) {
+			run.FirstDiff = diffAt(got, sent)
+		}
+		c.Runs = append(c.Runs, run)
+	}
+	return c
+}
+
+// ---- conc stream: concurrent connections through one endpoint ----
+
+// tagged fills n bytes (a multiple of 8 is used) with words
+// [dir, id, offset/8 in 6 bytes].
+func tagged(dir byte, id int, n int) []byte {
+	b := make([]byte, n)
+	for off := 0; off+8 <= n; off += 8 {
+		w := uint64(off / 8)
+		b[off], b[off+1] = dir, byte(id)
+		b[off+2], b[off+3], b[off+4] = byte(w>>40), byte(w>>32), byte(w>>24)
+		b[off+5], b[off+6], b[off+7] = byte(w>>16), byte(w>>8), byte(w)
+	}
+	return b
+}
+
+func checkTagged(dir byte, id int, sent int, got []byte, rerr error) ConcDir {
+	d := ConcDir{Sent: sent, Received: len(got), PrefixOK: true, FirstDiff: -1}
+	if rerr != nil && rerr != io.EOF {
+		d.Err = classify(rerr)
+	}
+	want := tagged(dir, id, sent)
+	if len(got) > sent {
+		d.PrefixOK, d.FirstDiff = false, sent
+	} else if !bytes.Equal(got, want[:len(got)]) {
+		d.PrefixOK = false
+		k := diffAt(got, want) &^ 7
+		d.FirstDiff = k
+		if k+8 <= len(got) {
+			w := got[k : k+8]
+			off := (uint64(w[2])<<40 | uint64(w[3])<<32 | uint64(w[4])<<24 | uint64(w[5])<<16 | uint64(w[6])<<8 | uint64(w[7])) * 8
+			if (w[0] == 'A' || w[0] == 'C') && (w[0] != dir || int(w[1]) != id) {
+				d.Foreign = fmt.Sprintf("a word of connection %d, direction %c, offset %d", w[1], w[0], off)
+			}
+		}
+	}
+	d.Complete = d.PrefixOK && len(got) == sent
+	return d
+}
+
+func runConc(r *hx.Rng, mode string, nconn, c2a, a2c int) *ConcCase {
+	res := &ConcCase{Mode: mode, C2ABytes: c2a, A2CBytes: a2c}
+	lookup := func(domain string) (*sniproxy.Dest, error) {
+		if domain == "conc.example" {
+			return &sniproxy.Dest{Name: "/ep0"}, nil
+		}
+		return nil, fmt.Errorf("bad domain %q", domain)
+	}
+	var mu sync.Mutex
+	appSide := map[int]ConcDir{}
+	var appWG sync.WaitGroup
+	handler := func(ep string, conn net.Conn) {
+		defer appWG.Done()
+		defer conn.Close()
+		conn.SetDeadline(time.Now().Add(40 * time.Second))
+		br := bufio.NewReaderSize(conn, 4096)
+		if _, err := e2e.ReadRecord(br); err != nil {
+			return
+		}
+		line, err := br.ReadString('\n')
+		var id int
+		if _, e := fmt.Sscanf(line, "ID %d", &id); err != nil || e != nil {
+			return
+		}
+		var wg sync.WaitGroup
+		wg.Add(1)
+		go func() {
+			defer wg.Done()
+			data := tagged('A', id, a2c)
+			for off := 0; off < len(data); {
+				n := 256 << 10
+				if n > len(data)-off {
+					n = len(data) - off
+				}
+				if _, err := conn.Write(data[off : off+n]); err != nil {
+					return
+				}
+				off += n
+			}
+		}()
+		got := make([]byte, c2a)
+		n, rerr := io.ReadFull(br, got)
+		d := checkTagged('C', id, c2a, got[:n], rerr)
+		wg.Wait()
+		// wait for the client to have everything before closing
+		io.Copy(io.Discard, br)
+		mu.Lock()
+		appSide[id] = d
+		mu.Unlock()
+	}
+	appWG.Add(nconn)
+	w, err := e2e.NewWorld(mode, lookup, []string{"/ep0"}, handler)
+	if err != nil {
+		res.SetupErr = err.Error()
+		return res
+	}
+	defer w.Close()
+	hello := e2e.SynthHello("conc.example", true, 0)
+	res.Conns = make([]ConcConn, nconn)
+	var cwg sync.WaitGroup
+	start := make(chan struct{})
+	for k := 0; k < nconn; k++ {
+		cwg.Add(1)
+		go func(id int) {
+			defer cwg.Done()
+			cc := ConcConn{ID: id}
+			defer func() { res.Conns[id] = cc }()
+			<-start
+			conn, err := w.DialFront()
+			if err != nil {
+				cc.A2C.Err = "front-dial: " + err.Error()
+				return
+			}
+			defer conn.Close()
+			conn.SetDeadline(time.Now().Add(40 * time.Second))
+			first := append(append([]byte{}, hello...), []byte(fmt.Sprintf("ID %d\n", id))...)
+			if _, err := conn.Write(first); err != nil {
+				cc.A2C.Err = "write: " + err.Error()
+				return
+			}
+			var wg sync.WaitGroup
+			wg.Add(1)
+			go func() {
+				defer wg.Done()
+				data := tagged('C', id, c2a)
+				splitWrite(conn, data, []int{[]int{1000, 4096, 32768, 65536, 100000}[id%5]})
+			}()
+			got := make([]byte, a2c)
+			n, rerr := io.ReadFull(conn, got)
+			cc.A2C = checkTagged('A', id, a2c, got[:n], rerr)
+			wg.Wait()
+		}(k)
+	}
+	close(start)
+	cwg.Wait()
+	for _, c := range res.Conns {
+		_ = c
+	}
+	w.Front.Close()
+	done := make(chan struct{})
+	go func() {
+		// the application sides end when their clients have closed
+		appWG.Wait()
+		close(done)
+	}()
+	select {
+	case <-done:
+	case <-time.After(15 * time.Second):
+	}
+	mu.Lock()
+	for i := range res.Conns {
+		if d, ok := appSide[res.Conns[i].ID]; ok {
+			res.Conns[i].C2A = d
+		} else {
+			res.Conns[i].C2A = ConcDir{Sent: c2a, FirstDiff: -1, PrefixOK: true, Err: "application side did not finish"}
+		}
+	}
+	mu.Unlock()
+	return res
 }
 
 // ---- e2e stream ----
@@ -825,6 +1334,24 @@ func runE2E(r *hx.Rng, mw *modeWorld, mode string, c2a, a2c int) *E2ECase {
 	up := append(append([]byte{}, hello...), pattern(r.U64(), c2a)...)
 	down := pattern(r.U64(), a2c)
 	csplits, asplits := genSplits(r), genSplits(r)
+	// Tiny writes on a multi-megabyte payload are hundreds of thousands of
+	// writes (each a round trip in legacy mode): the transfer would outlast the
+	// observation bound without anything being wrong.  Keep it to ~20 000.
+	scale := func(splits []int, total int) []int {
+		for {
+			sum := 0
+			for _, x := range splits {
+				sum += x
+			}
+			if sum == 0 || total/(sum/len(splits)+1) <= 20000 {
+				return splits
+			}
+			for i := range splits {
+				splits[i] *= 16
+			}
+		}
+	}
+	csplits, asplits = scale(csplits, c2a), scale(asplits, a2c)
 	if r.Intn(4) == 0 { // cut inside the hello too
 		csplits = append([]int{1, 2, 2, 1 + r.Intn(len(hello))}, csplits...)
 	}
@@ -915,7 +1442,18 @@ type spec struct {
 func plan(seed uint64, n, e2eN int, big, huge bool) []spec {
 	r := hx.NewRng(seed)
 	var ss []spec
-	// corpus first: the boundary sizes in every mode
+	// corpus first: the front stage alone (TLSHelloConn), a hello with bytes
+	// behind it in one segment, every caller buffer size
+	ss = append(ss, spec{stream: "stage", seed: r.U64(), a: 0})
+	ss = append(ss, spec{stream: "stage", seed: r.U64(), a: 1})
+	for i := 0; i < 10; i++ {
+		ss = append(ss, spec{stream: "stage", seed: r.U64(), a: 2})
+	}
+	// several connections at once through one endpoint, tagged payloads both ways
+	for _, mode := range e2e.Modes {
+		ss = append(ss, spec{stream: "conc", seed: r.U64(), mode: mode, a: 256 << 10, b: 2 << 20})
+	}
+	// then the boundary sizes in every mode
 	for _, mode := range e2e.Modes {
 		for _, sz := range []int{4096, 4097, 32769, 65537} {
 			ss = append(ss, spec{stream: "e2e", seed: r.U64(), mode: mode, a: sz, b: sz})
@@ -932,6 +1470,9 @@ func plan(seed uint64, n, e2eN int, big, huge bool) []spec {
 		ss = append(ss, spec{stream: "e2e", seed: r.U64(), mode: e2e.Modes[i%3],
 			a: payloadSizes[r.Intn(len(payloadSizes))], b: payloadSizes[r.Intn(len(payloadSizes))]})
 	}
+	for k := 0; k < 16; k++ { // message boundaries: fragments, zero lengths, a cut in the middle of a message
+		ss = append(ss, spec{stream: "readf", seed: r.U64(), a: []int{0, 0, 1, 2, 0, 3, 0, 1}[k%8]})
+	}
 	ss = append(ss, spec{stream: "read", seed: r.U64(), a: 1}) // corpus: end marker, websocket left open
 	ss = append(ss, spec{stream: "write", seed: r.U64(), big: true})
 	ss = append(ss, spec{stream: "write", seed: r.U64(), a: 131075})
@@ -942,7 +1483,11 @@ func plan(seed uint64, n, e2eN int, big, huge bool) []spec {
 		case c < 14:
 			ss = append(ss, spec{stream: "read", seed: r.U64()})
 		case c < 15:
-			ss = append(ss, spec{stream: "wfail", seed: r.U64()})
+			if r.Intn(2) == 0 {
+				ss = append(ss, spec{stream: "readf", seed: r.U64(), a: r.Intn(4)})
+			} else {
+				ss = append(ss, spec{stream: "wfail", seed: r.U64()})
+			}
 		case c < 17:
 			ss = append(ss, spec{stream: "reply", seed: r.U64()})
 		default:
@@ -989,6 +1534,14 @@ func runSpec(i int, s spec) (c Case) {
 		if c.Read.Ended == "timeout" {
 			hungStream["read"]++
 		}
+	case "readf":
+		if hungStream["readf"] >= 3 {
+			return c
+		}
+		c.ReadF = runReadF(r, s.a)
+		if c.ReadF.Ended == "timeout" {
+			hungStream["readf"]++
+		}
 	case "wfail":
 		if hungStream["wfail"] >= 3 {
 			return c
@@ -1001,6 +1554,10 @@ func runSpec(i int, s spec) (c Case) {
 		c.Reply = runReply(r)
 	case "pipe":
 		c.Pipe = runPipe(r)
+	case "stage":
+		c.Stage = runStage(r, s.a)
+	case "conc":
+		c.Conc = runConc(r, s.mode, 8, s.a, s.b)
 	case "e2e":
 		mw := worlds[s.mode]
 		if mw == nil {
